@@ -24,6 +24,7 @@ def run(pid, repo, tier, seed, evidence_dir=None, only_rules=None,
         print_=print):
     E = Engine(repo)
     ctx = rules.Ctx(E)
+    ctx.validate_anchors(pid)
     mod = rules.module_for(pid)
     R = rep.PropertyReport(
         pid, tier, seed, mod.EXPLANATION,
